@@ -9,9 +9,12 @@ import common as C
 
 
 class Engine:
-    def __init__(self, cwd=None):
-        self.p = subprocess.Popen([C.ENGINE], stdin=subprocess.PIPE, stdout=subprocess.PIPE,
-                                  stderr=subprocess.PIPE, bufsize=0, cwd=cwd or C.BUILD)
+    def __init__(self, cwd=None, binary=None, env=None):
+        e = dict(os.environ)
+        if env:
+            e.update(env)
+        self.p = subprocess.Popen([binary or C.ENGINE], stdin=subprocess.PIPE, stdout=subprocess.PIPE,
+                                  stderr=subprocess.PIPE, bufsize=0, cwd=cwd or C.BUILD, env=e)
         self.q = queue.Queue()
         self.lines = []          # (t, text) everything seen so far
         self.t = threading.Thread(target=self._reader, daemon=True)
@@ -122,3 +125,85 @@ def run_parallel(fn, items, workers=8):
     from concurrent.futures import ThreadPoolExecutor
     with ThreadPoolExecutor(max_workers=workers) as ex:
         return list(ex.map(fn, items))
+
+
+# ------------------------------------------------------------------------------------------------
+# traced sessions (hook H5): the hook-enabled binary prints `verifstate ...` at the top of its UCI
+# loop, i.e. after every command has been fully served; the session below is therefore driven in
+# lock step and is deterministic as long as every `go` has a zero time slice.
+
+SEP = "\x1e"
+
+
+def esc_line(s):
+    out = []
+    for ch in s:
+        o = ord(ch)
+        if ch == "\n":
+            out.append("\\n")
+        elif ch == "\r":
+            out.append("\\r")
+        elif ch == "\t":
+            out.append("\\t")
+        elif ch == "\\":
+            out.append("\\\\")
+        elif o < 0x20 or o >= 0x7f:
+            out.append("\\u{%x}" % o)
+        else:
+            out.append(ch)
+    return "".join(out)
+
+
+def traced_session(items, ending):
+    """items: list of str (raw line) or callable(answers)->str (line built from the engine's earlier
+    answers); ending: 'eof' | 'quit' | ('partial', text).  Returns (transcript, entries, problem):
+    transcript = what the process printed from `uciok` on (+ 'exit N'), entries = the script as the
+    model must see it (raw line, U+001E, the engine's answer for go lines)."""
+    e = Engine(binary=C.ENGINE_TRACE, env={"WALLEYE_VERIF_TRACE": "1"})
+    transcript = []
+    entries = ["uci"]
+    answers = []
+    try:
+        e.send("uci")
+        lines, ok = e.read_until(lambda l: l.startswith("verifstate "), 10.0)
+        if not ok:
+            return None, None, "no state trace after the handshake (hook H5 missing?)"
+        seen = [l for _, l in lines]
+        if "uciok" not in seen:
+            return None, None, "no uciok"
+        transcript = seen[seen.index("uciok"):]
+        alive = True
+        for it in items:
+            line = it(answers) if callable(it) else it
+            e.send(line)
+            lines, ok = e.read_until(lambda l: l.startswith("verifstate "), 10.0)
+            got = [l for _, l in lines]
+            transcript += got
+            ans = [l for l in got if l.startswith("bestmove ")]
+            if ans:
+                answers.append(ans[-1].split(" ")[1] if " " in ans[-1] else "")
+            entries.append(line + (SEP + answers[-1] if ans else ""))
+            if not ok:
+                alive = False
+                break
+        if alive:
+            if ending == "quit":
+                e.send("quit")
+                entries.append("quit")
+            elif isinstance(ending, tuple):
+                e.send_raw(ending[1].encode("utf-8"))
+                entries.append(ending[1])
+                e.close_stdin()
+            else:
+                e.close_stdin()
+            tail, _ = e.read_until(lambda l: False, 3.0)
+            transcript += [l for _, l in tail]
+            ans = [l for _, l in tail if l.startswith("bestmove ")]
+            if ans and isinstance(ending, tuple):
+                # an unterminated last line is still a command (e.g. `go`): its answer belongs to it
+                entries[-1] += SEP + (ans[-1].split(" ")[1] if " " in ans[-1] else "")
+        rc = e.wait_exit(5.0)
+        transcript.append("exit %s" % ("none" if rc is None else (rc if rc >= 0 else 128 - rc)))
+        return transcript, entries, None
+    finally:
+        e.kill()
